@@ -90,7 +90,7 @@ var Owns = map[string][]string{
 	"C12": {"diff"},
 	"C13": {"order"},
 	"C14": {"alias"},
-	"C15": {"hooks"},
+	"C15": {"hooks", "case"},
 	"C16": {"case"},
 	"C17": {"guard", "read", "async", "layout", "deadlock", "reject"},
 	"C18": {"layout"},
